@@ -151,6 +151,8 @@ def _storage(kind, t):
         return {"": "dict", key: "file_array"}
     if kind == "mix_sub_first":
         return {"": "file_array", key: "dict_sub"}
+    if kind == "mix_dict_first":
+        return {key: "dict", "": "file_array"}
     raise AssertionError(kind)
 
 
@@ -180,7 +182,10 @@ def sched(tid, storage_kind, exec_kind, c0, c1, c2, c3, c4, c5, c6, c7, n0, n1, 
             shims.TOK.clear()
             log = tmpl.Log()
             p = tmpl.make_pipeline(t.funcs, log)
-            needs_folder = True  # stored data are compared through load_outputs for every storage
+            # stored data are compared through load_outputs for every storage; "<kind>@nf": no run folder is given
+            # (the library picks a temporary one when some backend needs it), results are compared only
+            needs_folder = not storage_kind.endswith("@nf")
+            storage_kind = storage_kind.split("@")[0]
             folder = L.scratch_dir() if needs_folder else None
         choices = [c0, c1, c2, c3, c4, c5, c6, c7]
         ex = SymExecutor(choices, log)
@@ -270,8 +275,12 @@ def obligations(tier):
         ("TN2", "dict", "single", 2),
         ("TN2", "mix_file_first", "default_dict", 2),
         ("T7", "mix_file_first", "default_dict", 2),
+        ("T4", "mix_file_first@nf", "single", 2),
+        ("T8", "mix_dict_first@nf", "default_dict", 2),
+        ("T1", "file_array@nf", "single", 2),
     ]
     full = [(tid, st, ek, 2) for tid in ("T1", "T3", "T4", "T5", "T7", "T7p", "T8", "T10", "T12", "T13", "T17") for st in ("dict", "file_array", "dict_sub", "mix_file_first", "mix_sub_first") for ek in ("single", "default_dict", "per_output")]
+    full += [(tid, st + "@nf", "single", 2) for tid in ("T1", "T4", "T8") for st in ("file_array", "dict_sub", "mix_file_first", "mix_dict_first", "mix_sub_first")]
     for tid, st, ek, hi in full if thorough else quick:
         t = T[tid]
         big = tid in ("T4", "T8", "T10", "T12", "T17")  # several functions per generation / rank 3: the schedule space explodes
@@ -279,7 +288,7 @@ def obligations(tier):
         cpre = " and ".join(f"0 <= c{i} <= 3" for i in range(nch)) + " and " + " and ".join(f"c{i} == 0" for i in range(nch, 8))
         obs.append(
             Ob(
-                f"sched_{tid}_{st}_{ek}",
+                f"sched_{tid}_{st.replace('@nf', '_nofolder')}_{ek}",
                 C + MAP_PARAMS,
                 [cpre] + (tmpl.size_pre(t, hi) if ((thorough and not big) or tid == "T1") else [" and ".join(f"n{a} == {2 if a < t.axes else 1}" for a in range(3))]),
                 f"H.sched({tid!r}, {st!r}, {ek!r}, {CARGS}, {MAP_ARGS})",
